@@ -95,12 +95,25 @@ def install():
     def minimize(fcn, params, method="leastsq", args=None, kws=None, **kw):
         sim = simpool.CURRENT
         if sim is not None and getattr(sim, "fail_set", None):
+            # "#k": the k-th optimiser call of the run fails, whatever it fits (a fit that fails after
+            # earlier ones succeeded: second pass of a two-pass analysis, a later combination, ...)
+            sim.minimize_calls = getattr(sim, "minimize_calls", 0) + 1
+            if f"#{sim.minimize_calls}" in sim.fail_set:
+                sim.fired["F4"] += 1
+                raise simpool.InjectedFault(f"injected fit failure for optimiser call #{sim.minimize_calls}")
             ident = None
             if args is not None and len(args) > 3 and callable(args[3]):
                 ident = f"{method}/{getattr(args[3], '__name__', '?')}"
             if ident is not None and ident in sim.fail_set:
                 sim.fired["F4"] += 1
                 raise simpool.InjectedFault(f"injected fit failure for {ident}")
+            if ident is not None and ident + "@1" in sim.fail_set:
+                # flaky fit: only the first optimiser call for this combination fails (a retry would succeed)
+                counts = sim.__dict__.setdefault("fail_counts", {})
+                counts[ident] = counts.get(ident, 0) + 1
+                if counts[ident] == 1:
+                    sim.fired["F4"] += 1
+                    raise simpool.InjectedFault(f"injected fit failure for the first attempt of {ident}")
         return _REAL["minimize"](fcn, params, method=method, args=args, kws=kws, **kw)
 
     lmfit.minimize = minimize
